@@ -237,7 +237,7 @@ func c11(args []string) int {
 		return rc
 	}
 	// ---------------- part 3: in-process server ----------------
-	if rc := c11Server(run); rc != 0 {
+	if rc := c11Server(run, dir); rc != 0 {
 		return rc
 	}
 	return run.Finish()
